@@ -52,6 +52,7 @@ import PubgrubProofs.Termination
 import PubgrubProofs.RangeTermination
 import PubgrubProofs.Decides
 import PubgrubProofs.Typed
+import PubgrubProofs.Examples
 
 namespace Pubgrub.C05
 open Pubgrub
@@ -286,5 +287,8 @@ theorem C05_example_terminates (debug : Bool) :
       (Solver.after (Solver.start debug fuel (0 : Fin 2) (0 : Fin 3)) as).2.isFinal = true ∧
       (Solver.after (Solver.start debug fuel (0 : Fin 2) (0 : Fin 3)) as).2 ≠ .fault .outOfFuel :=
   BitSet.example_terminates debug
+
+/-! Non-vacuity on concrete runs (PubgrubProofs/Examples.lean, evaluated by `decide +kernel`; registered in
+obligations.json so that their axioms are audited too): `Examples.example_C_psWF`, `Examples.example_D_resolve_returns_typed`. -/
 
 end Pubgrub.C05
